@@ -287,5 +287,23 @@ PROPS["C13"] = {
     "shrink": False,
 }
 
+PROPS["C11"] = {
+    "id": "C11",
+    "lean_modules": ["JT.Props.C11"],
+    "functional_ops": [],
+    "rule": ("scripted histories against a real server subprocess, every action awaited so that the linearisation is known: up to 6 connections over 3 keys connect and send a first message (join), present keys that are online (duplicates), close, reconnect; "
+             "platform commands are sent to online and offline keys and the harness observes WHICH connection receives the command frame; the join/leave callbacks reported by the server are checked for pairing. 5 fixed histories (incl. the one of the property text) + random ones. "
+             "non-trivial = history with a refused duplicate, a not-exist or a routed command."),
+    "technique": "Lean 4 proof of a registry/connection life-cycle model over all operation histories (consistency invariant, pairing of join/leave announcements) + scripted socket histories executed on the real server and on the model",
+    "level_text": ("Machine-checked Lean 4 theorems over ALL histories of atomic registry operations (every interleaving of connections and callers yields such a history because one manager goroutine runs them): the registry and the live connections stay consistent "
+                   "(a key's owner is a live connection that joined with it; every live joined connection owns its key; hence at most one per key); a duplicate is refused and changes nothing for the owner; ending a connection frees exactly its own key (nothing if it never joined); "
+                   "a freed key can be taken again; commands go to the current owner and an offline key gives not-exist without any state change; per connection at most one join announcement and at most one leave announcement, the latter with the key it joined with. "
+                   "The same histories run on the real server over sockets and through the model (outcomes compared, callbacks checked). Partial: atomicity of manager operations is assumed by the model and validated by these runs; concurrent schedules are sampled (C13 stress)."),
+    "level_note": "Trusted: Lean kernel; the atomicity assumption (single session-manager goroutine); sysd/sock harness; default key function (phone number).",
+    "trusted_base": _SOCK_TB + ["model lean/JT/Model/Registry.lean assumes registry operations are atomic and ordered by the manager goroutine"],
+    "assumptions": ["default KeyFunc (terminal phone number, never empty)", "registry operations are atomic"],
+    "shrink": False,
+}
+
 # properties that are not claimed, with the reason (anything not listed and not in PROPS gets a generic "not built yet")
 NOT_APPLICABLE = {}
